@@ -145,7 +145,12 @@ def one_case(ctx, rng, n, big=False):
     with tempfile.TemporaryDirectory(prefix='pvC03') as d:
         fn = os.path.join(d, name)
         try:
-            ret = seq.write(fn, create_signature=sigflag, remove_duplicates=dedup)
+            # the flag as callers may compute it: a bool, a NumPy bool or an int
+            flag_arg = sigflag
+            if rng.random() < 0.3:
+                flag_arg = (__import__('numpy').bool_(sigflag) if rng.random() < 0.5 else int(sigflag))
+                ctx.count('flag.%s' % type(flag_arg).__name__)
+            ret = seq.write(fn, create_signature=flag_arg, remove_duplicates=dedup)
         except AssertionError:
             ctx.count('skipped.write_assertion')
             return None
@@ -182,6 +187,10 @@ def one_case(ctx, rng, n, big=False):
         for k, (who, sf, dd) in enumerate(follow):
             obj = seq if who == 'same' or s2 is None else s2
             fn2 = os.path.join(d, 'f%d.seq' % k)
+            if who == 'same' and rng.random() < 0.5:
+                fn2 = fn        # over the file written first, with other content: same path, new hash
+                obj.add_block(pp.make_delay(1e-3 * (k + 2)))
+                ctx.count('follow_up.same_path')
             try:
                 ret2 = obj.write(fn2, create_signature=sf, remove_duplicates=dd)
             except AssertionError:
